@@ -62,6 +62,10 @@ def cases(tier, seed):
                 yield {"family": "scaled", "n": n, "spacing": list(sp), "unit": unit, "offset": off, "values": VALUES[:4]}
         for drift in (8e-6, 5e-7, 1e-9):
             yield {"family": "scaled", "n": n, "spacing": [1.0 + k * drift for k in range(n - 1)], "unit": 1.0, "offset": 0.0, "values": VALUES[:4]}
+    # histories: the caller keeps using (and changing in place) the value tensor it built the interpolant from
+    for n in (2, 3, 4):
+        for sp in itertools.product(SPACINGS, repeat=n - 1):
+            yield {"family": "history", "n": n, "spacing": list(sp), "values": VALUES[:4]}
     for n in (50, 500):
         for shape in ("sine", "saw", "steps", "walk", "flatends"):
             for grid in ("uniform", "nonuniform"):
@@ -150,7 +154,61 @@ def _structured(case):
     return x, y
 
 
+HIST_OPS = ["scale", "set_first", "reverse", "set_last"]
+
+
+def _history_case(case):
+    """build from tensors, then let the caller change the value tensor in place (every sequence of <= 2 changes): after each change the
+    object must still be ONE interpolant - that of the data it was built from (what the code does) or that of the tensor's current content."""
+    from emu_base.math.pchip_torch import PCHIP1D
+
+    n, sp, vals = case["n"], case["spacing"], case["values"]
+    x = np.concatenate([[0.0], np.cumsum(sp)])
+    inner = [x[i] + f * (x[i + 1] - x[i]) for i in range(n - 1) for f in (0.25, 0.5, 0.75)]
+    q = np.array(list(x) + inner + [x[0] - 0.5, x[-1] + 0.5])
+    qt = torch.tensor(q, dtype=torch.float64)
+
+    def ref(y):
+        if n == 2:
+            return y[0] + (q - x[0]) * (y[1] - y[0]) / (x[1] - x[0])
+        return PchipInterpolator(x, y, extrapolate=True)(q)
+
+    count = 0
+    for y0 in itertools.product(vals, repeat=n):
+        if len(set(y0)) == 1:
+            continue
+        for hist in [h for d in (1, 2) for h in itertools.product(HIST_OPS, repeat=d)]:
+            xt = torch.tensor(x, dtype=torch.float64)
+            yt = torch.tensor(y0, dtype=torch.float64)
+            p = PCHIP1D(xt, yt)
+            built = ref(np.array(y0))
+            for k, op in enumerate(hist):
+                if op == "scale":
+                    yt.mul_(-0.5)
+                elif op == "set_first":
+                    yt[0] += 3.0
+                elif op == "set_last":
+                    yt[-1] -= 2.0
+                else:
+                    yt.copy_(yt.flip(0).clone())
+                count += 1
+                got = p(qt).numpy()
+                live = ref(yt.numpy().copy())
+                scale = max(1.0, np.abs(built).max(), np.abs(live).max())
+                if min(np.abs(got - built).max(), np.abs(got - live).max()) > 1e-10 * scale:
+                    return result(
+                        False,
+                        sig=f"history|after={op}",
+                        msg=f"after the caller changed its value tensor in place ({list(hist[: k + 1])}) the object is neither the interpolant of the data it was built from nor of the current data: "
+                        f"x={x.tolist()} y0={list(y0)} y_now={yt.tolist()} got={got.tolist()}",
+                        outcome="viol",
+                    )
+    return result(True, outcome=["history", n, count], states=count, transitions=count, nontrivial=True)
+
+
 def run_case(case):
+    if case["family"] == "history":
+        return _history_case(case)
     if case["family"] == "structured":
         x, y = _structured(case)
         err = _check_one(x, y)
